@@ -44,6 +44,11 @@ pub enum Corr {
     Point(usize),
     Leaf(usize, usize),
     Auth(usize, usize),
+    /// change confined to the bits above the digest width
+    AuthHigh(usize, usize),
+    /// two cooperating edits: the queried value set to 0 and the honest value smuggled in as an
+    /// extra sibling leaf at the position where a verifier would read that slot
+    ZeroValuePlusLeaf(usize),
     AuthDrop(usize, usize),
     LeafDrop(usize, usize),
     RootPre(usize),
@@ -63,6 +68,8 @@ impl Corr {
             Corr::Point(_) => "query point",
             Corr::Leaf(..) => "sibling leaf",
             Corr::Auth(..) => "inner-layer authentication node",
+            Corr::AuthHigh(..) => "inner-layer authentication node (high bits only)",
+            Corr::ZeroValuePlusLeaf(_) => "input value zeroed + honest value as extra leaf",
             Corr::AuthDrop(..) => "inner-layer authentication node dropped",
             Corr::LeafDrop(..) => "sibling leaf dropped",
             Corr::RootPre(_) => "inner-layer commitment (before commit)",
@@ -128,6 +135,32 @@ impl Instance {
             Corr::Point(i) => points[*i] *= Felt::from(2 + rng.below(1000)),
             Corr::Leaf(l, j) => layers[*l].leaves[*j] += delta,
             Corr::Auth(l, j) => layers[*l].table_witness.vector.authentications[*j] += delta,
+            Corr::AuthHigh(l, j) => layers[*l].table_witness.vector.authentications[*j] += pow_u128(Felt::TWO, if *j % 2 == 0 { 200 } else { 249 }),
+            Corr::ZeroValuePlusLeaf(k) => {
+                let cs = 1u128 << p.steps[1];
+                let qk = self.queries[*k];
+                let mut pos = 0usize;
+                let mut cosets: Vec<u128> = self.queries.iter().map(|x| x / cs).collect();
+                cosets.dedup();
+                for ci in cosets {
+                    for j in 0..cs {
+                        let idx = ci * cs + j;
+                        if idx == qk {
+                            break;
+                        }
+                        if !self.queries.contains(&idx) {
+                            pos += 1;
+                        }
+                    }
+                    if ci == qk / cs {
+                        break;
+                    }
+                }
+                let honest = values[*k];
+                values[*k] = Felt::ZERO;
+                let at = pos.min(layers[0].leaves.len());
+                layers[0].leaves.insert(at, honest);
+            }
             Corr::AuthDrop(l, j) => {
                 layers[*l].table_witness.vector.authentications.remove(*j);
             }
@@ -340,6 +373,102 @@ fn formula_identities(rep: &mut Report, rng: &mut Rng, n_cases: u64) {
     }
 }
 
+/// Honest FRI instance for a CONSTANT polynomial on a domain of up to 2^60 points: every layer is
+/// constant, so all trees are level-constant (sparse model) and the whole proof costs O(height).
+/// Exercises index arithmetic far beyond what materialised layers can reach.
+pub fn huge_constant_run(rng: &mut Rng, corrupt: bool) -> (Outcome, serde_json::Value) {
+    use vcommon::merkle::{Table, TreeParams};
+    let hash = crate::build_hash();
+    let (params, m) = loop {
+        let n_layers = rng.range(6, 15) as usize;
+        let mut steps = vec![0u32];
+        for _ in 1..n_layers {
+            steps.push(rng.range(2, 4) as u32);
+        }
+        let lb = rng.range(0, 8) as u32;
+        let c = rng.range(1, 4) as u32;
+        let p = FriParams { steps, lb, c, n_friendly: *rng.pick(&[0u64, 5, 20, 40, 1000]), hash, extra_height: 0 };
+        let m = p.m();
+        if (34..=60).contains(&m) {
+            break (p, m);
+        }
+    };
+    let c0 = rng.felt();
+    let seed = rng.felt();
+    let mut sponge = SpongeModel::new(seed);
+    let mut v = c0;
+    let mut tables = vec![];
+    let mut roots = vec![];
+    for (i, s) in params.steps[1..].iter().enumerate() {
+        let cs = 1usize << s;
+        let tp = TreeParams { height: params.layer_height(i), n_friendly: params.n_friendly, hash };
+        let tb = Table::sparse(tp, cs, vec![v; cs], std::collections::BTreeMap::new());
+        sponge.absorb(&[tb.root()]);
+        let _e = sponge.squeeze();
+        roots.push(tb.root());
+        tables.push((tb, v));
+        v *= Felt::from(cs as u64);
+    }
+    let mut last = vec![Felt::ZERO; 1usize << params.lb];
+    last[0] = v;
+    // queries on both sides of 2^32, some adjacent
+    let n = 1u128 << m;
+    let mut q: Vec<u128> = vec![rng.next() as u128 % (1u128 << 32), (1u128 << 32) + rng.next() as u128 % (1u128 << 20), n - 1 - (rng.next() as u128 % 1000), (rng.next() as u128) << (m - 34).min(20) ];
+    q.retain(|x| *x < n);
+    let extra = q[1] ^ 1;
+    q.push(extra);
+    q.sort();
+    q.dedup();
+    let w = root_of_unity(m);
+    let mut values: Vec<Felt> = q.iter().map(|_| c0).collect();
+    let points: Vec<Felt> = q.iter().map(|x| Felt::THREE * pow_u128(w, bitrev(*x, m))).collect();
+    if corrupt {
+        values[0] += Felt::ONE;
+    }
+    let mut layers = vec![];
+    let mut cur = q.clone();
+    for (i, s) in params.steps[1..].iter().enumerate() {
+        let cs = 1u128 << s;
+        let mut cosets: Vec<u128> = cur.iter().map(|x| x / cs).collect();
+        cosets.dedup();
+        let nleaves = cosets.len() * cs as usize - cur.len();
+        let (tb, val) = &tables[i];
+        layers.push(LayerWitness {
+            leaves: vec![*val; nleaves],
+            table_witness: TWitness { vector: VWitness { authentications: tb.tree.witness(&cosets) } },
+        });
+        cur = cosets;
+    }
+    let cfg = fri_config(&params);
+    let desc = json!({"kind": "constant polynomial on a huge domain", "log_input_size": m, "steps": params.steps, "n_friendly": params.n_friendly,
+        "queries": q.iter().map(|x| x.to_string()).collect::<Vec<_>>(), "corrupted": corrupt});
+    let valid = {
+        let cfg2 = fri_config(&params);
+        let (c, nf) = (params.c, params.n_friendly);
+        catch(move || cfg2.validate(Felt::from(c as u64), Felt::from(nf)).is_ok()).unwrap_or(false)
+    };
+    if !valid {
+        return (Outcome::Rejected("config not accepted by Config::validate".into()), desc);
+    }
+    let unsent = UnsentCommitment { inner_layers: roots, last_layer_coefficients: last };
+    let com = catch(move || {
+        let mut t = Transcript::new(seed);
+        fri_commit(&mut t, unsent, cfg)
+    });
+    let com = match com {
+        Ok(c) => c,
+        Err(p) => return (Outcome::Panicked(format!("fri_commit {}:{} {}", p.file, p.line, p.msg)), desc),
+    };
+    let qf: Vec<Felt> = q.iter().map(|x| Felt::from(*x)).collect();
+    let r = catch(move || fri_verify(&qf, com, Decommitment { values, points }, Witness { layers }).map_err(|e| format!("{e:?}")));
+    let out = match r {
+        Ok(Ok(())) => Outcome::Accepted,
+        Ok(Err(e)) => Outcome::Rejected(e),
+        Err(p) => Outcome::Panicked(format!("fri_verify {}:{} {}", p.file, p.line, p.msg)),
+    };
+    (out, desc)
+}
+
 pub fn make_instance(rng: &mut Rng, thorough: bool, poly_kind: u64) -> Instance {
     let params = gen_params(rng, thorough);
     let coef = gen_poly(rng, &params, poly_kind);
@@ -422,6 +551,9 @@ pub fn run(args: &Args, sound: bool) -> Report {
             if alone {
                 corrs.push(Corr::Point(k));
             }
+            if inst.proof.input[inst.queries[k] as usize] != Felt::ZERO {
+                corrs.push(Corr::ZeroValuePlusLeaf(k));
+            }
         }
         for (l, o) in openings.iter().enumerate() {
             for j in 0..o.leaves.len() {
@@ -432,6 +564,7 @@ pub fn run(args: &Args, sound: bool) -> Report {
             }
             for j in 0..o.authentications.len() {
                 corrs.push(Corr::Auth(l, j));
+                corrs.push(Corr::AuthHigh(l, j));
             }
             if !o.authentications.is_empty() {
                 corrs.push(Corr::AuthDrop(l, rng.below(o.authentications.len() as u64) as usize));
@@ -485,6 +618,24 @@ pub fn run(args: &Args, sound: bool) -> Report {
     });
     total.merge(rep);
 
+    // ---- domains of 2^34..2^60 points (constant polynomial, level-constant trees)
+    {
+        let n_huge: u64 = if thorough { 400 } else { 60 };
+        let rep = par_run(n_threads(), n_huge, |i, rep| {
+            let mut rng = base.fork(&format!("huge{i}"));
+            let corrupt = sound;
+            let (out, desc) = huge_constant_run(&mut rng, corrupt);
+            rep.case(&format!("huge|{desc}"), true);
+            rep.inc("huge_domain.instances");
+            match (corrupt, out) {
+                (false, Outcome::Accepted) => rep.inc("huge_domain.honest_accepted"),
+                (false, o) => rep.violation("C06|honest-rejected|huge-domain", &format!("honest FRI instance on a domain above 2^32 not accepted: {o:?}"), desc),
+                (true, Outcome::Accepted) => rep.violation("C07|corruption-accepted|input value (huge domain)", "corrupted input value accepted on a domain above 2^32", desc),
+                (true, _) => rep.inc("corrupt_rejected"),
+            }
+        });
+        total.merge(rep);
+    }
     if sound {
         // ---- C07: the last layer must have EXACTLY 2^bound coefficients. The changes below keep the
         // polynomial's values (zero padding, or dropping coefficients that are zero), so only the
